@@ -12,6 +12,7 @@ import OpmVerif.Proofs.UdqFuel
 import OpmVerif.Proofs.UdqState
 import OpmVerif.Proofs.UdqType
 import OpmVerif.Proofs.UdqLex
+import OpmVerif.Proofs.UdqUnion
 
 namespace OpmVerif.Props.C17
 open OpmVerif.Udq OpmVerif.Gen.UdqEnums
@@ -203,6 +204,97 @@ propagation), so `eval_elementwise`, `eval_broadcast` and `undefined_propagates`
 theorem pow_is_elementwise {α : Type} (F : Fns α) (l r : USet α) : powSet F l r = arith F F.pow l r :=
   powSet_eq_arith F l r
 
+/-! ### Set union operators UADD / UMUL / UMIN / UMAX -/
+
+section Union
+variable {K : Type} [Field K] [LinearOrder K] [IsStrictOrderedRing K]
+
+/-- **Union semantics.**  Over every linearly ordered field, for all sets `l`, `r` of equal size
+(any kind, any names, any values, any definedness) and each of the four operators, the model of
+`l op r` is the set with the kind and the names of `l` whose element `i` is `unionElem`: `x + y`,
+`x * y`, `min x y`, `max x y` when both elements are defined, the defined element's value when
+exactly one is, undefined when neither is. -/
+theorem union_semantics {F : Fns K} (h : Exact F) (o : UOp) (l r : USet K)
+    (hlen : l.vals.length = r.vals.length) :
+    binFn F o.name l r
+      = .ok ⟨l.vt, List.zipWith (fun a b => (a.1, unionElem o.fn a.2 b.2)) l.vals r.vals⟩ :=
+  binFn_union_exact h o l r hlen
+
+/-- The same per element. -/
+theorem union_element {F : Fns K} (h : Exact F) (o : UOp) (l r : USet K)
+    (hlen : l.vals.length = r.vals.length) (i : Nat) (a b : String × Option K)
+    (ha : l.vals[i]? = some a) (hb : r.vals[i]? = some b) :
+    ∃ u, binFn F o.name l r = .ok u ∧ u.vt = l.vt ∧ u.vals.length = l.vals.length ∧
+      u.vals[i]? = some (a.1, unionElem o.fn a.2 b.2) :=
+  union_elem_exact h o l r hlen i a b ha hb
+
+/-- Sets of different size: the evaluation throws. -/
+theorem union_size_mismatch {α : Type} (F : Fns α) (o : UOp) (l r : USet α)
+    (hlen : l.vals.length ≠ r.vals.length) : binFn F o.name l r = .error () := by
+  rw [binFn_union]; exact unionSet_size_mismatch F _ l r hlen
+
+/-- **One-sided elements**, for EVERY number type and operation record (in particular IEEE
+doubles with rounding): whatever the operator, an element defined in exactly one operand takes
+that operand's value `x` (as `UDQScalar::assign` stores it: `fin F x`, i.e. `x` itself when it is
+finite — negative, zero, tiny or huge alike), and an element undefined in both stays undefined. -/
+theorem union_one_sided {α : Type} (F : Fns α) (o : UOp) (l r u : USet α)
+    (hu : binFn F o.name l r = .ok u) (i : Nat) (a b : String × Option α)
+    (ha : l.vals[i]? = some a) (hb : r.vals[i]? = some b) :
+    (∀ x, a.2 = some x → b.2 = none → u.vals[i]? = some (a.1, fin F x)) ∧
+    (∀ y, a.2 = none → b.2 = some y → u.vals[i]? = some (a.1, fin F y)) ∧
+    (a.2 = none → b.2 = none → u.vals[i]? = some (a.1, none)) :=
+  union_one_sided_any F o l r u hu i a b ha hb
+
+/-- **Commutativity**: `l op r` and `r op l` carry the same values (the names are those of the
+respective left operand). -/
+theorem union_commutative {F : Fns K} (h : Exact F) (o : UOp) (l r : USet K)
+    (hlen : l.vals.length = r.vals.length) :
+    ∃ u u', binFn F o.name l r = .ok u ∧ binFn F o.name r l = .ok u' ∧
+      u.vals.map (·.2) = u'.vals.map (·.2) :=
+  union_comm_exact h o l r hlen
+
+/-- **UMAX bounds**: element `i` of `l UMAX r` is defined as soon as one operand is, is not below
+any defined operand, and is one of the operands' values. -/
+theorem umax_upper_bound {F : Fns K} (h : Exact F) (l r : USet K)
+    (hlen : l.vals.length = r.vals.length) (i : Nat) (a b : String × Option K)
+    (ha : l.vals[i]? = some a) (hb : r.vals[i]? = some b) :
+    ∃ u v, binFn F "UMAX" l r = .ok u ∧ u.vals[i]? = some (a.1, v) ∧
+      (∀ x, a.2 = some x → ∃ z, v = some z ∧ x ≤ z) ∧
+      (∀ y, b.2 = some y → ∃ z, v = some z ∧ y ≤ z) ∧
+      (∀ z, v = some z → a.2 = some z ∨ b.2 = some z) := by
+  obtain ⟨u, hu, _, _, hi⟩ := union_elem_exact h .umax l r hlen i a b ha hb
+  exact ⟨u, _, hu, hi, (unionElem_max_ge a.2 b.2).1, (unionElem_max_ge a.2 b.2).2,
+    unionElem_max_mem a.2 b.2⟩
+
+/-- **UMIN bounds**, dually. -/
+theorem umin_lower_bound {F : Fns K} (h : Exact F) (l r : USet K)
+    (hlen : l.vals.length = r.vals.length) (i : Nat) (a b : String × Option K)
+    (ha : l.vals[i]? = some a) (hb : r.vals[i]? = some b) :
+    ∃ u v, binFn F "UMIN" l r = .ok u ∧ u.vals[i]? = some (a.1, v) ∧
+      (∀ x, a.2 = some x → ∃ z, v = some z ∧ z ≤ x) ∧
+      (∀ y, b.2 = some y → ∃ z, v = some z ∧ z ≤ y) ∧
+      (∀ z, v = some z → a.2 = some z ∨ b.2 = some z) := by
+  obtain ⟨u, hu, _, _, hi⟩ := union_elem_exact h .umin l r hlen i a b ha hb
+  exact ⟨u, _, hu, hi, (unionElem_min_le a.2 b.2).1, (unionElem_min_le a.2 b.2).2,
+    unionElem_min_mem a.2 b.2⟩
+
+/-- **An operand without any defined element is the identity** of each union operator:
+`l op r = l` when all of `r` is undefined, and `l op r` has the values of `r` when all of `l` is. -/
+theorem union_undefined_operand_identity {F : Fns K} (h : Exact F) (o : UOp) (l r : USet K)
+    (hlen : l.vals.length = r.vals.length) :
+    ((∀ p ∈ r.vals, p.2 = none) → binFn F o.name l r = .ok l) ∧
+    ((∀ p ∈ l.vals, p.2 = none) → ∃ u, binFn F o.name l r = .ok u ∧ u.vals.map (·.2) = r.vals.map (·.2)) :=
+  ⟨union_undefined_right_exact h o l r hlen, union_undefined_left_exact h o l r hlen⟩
+
+/-- Why the one-sided case cannot be implemented by substituting a constant for the undefined
+operand of UMAX / UMIN: in an ordered field no `e` is neutral for `max` (nor for `min`);
+`max x e = x` holds exactly for `x ≥ e`. -/
+theorem umax_umin_no_neutral_element (e : K) :
+    (∃ x : K, max x e ≠ x) ∧ (∃ x : K, min x e ≠ x) ∧ (∀ x : K, max x e = x ↔ e ≤ x) :=
+  ⟨max_no_neutral e, min_no_neutral e, max_neutral_iff e⟩
+
+end Union
+
 /-! ### Non-vacuity -/
 
 def num (x : Nat) : Ast := .leaf ⟨.number, .num x.toUInt64, [], false⟩
@@ -273,5 +365,37 @@ example : (match Lex.tokenize ["WOPR'P*'*1.5E-3-(2)".toList] with
 example : (match Lex.tokenize ["TU_FBHP[FOPR".toList] with | .missingBracket => true | _ => false) = true := by decide +kernel
 
 example : okRest 3 [⟨.binary_op_add, .str "+", []⟩] := by simp [okRest, allowed]; decide
+
+/-! union operators: an exact operation record exists (`ratFns` over `ℚ`), and a concrete pair of
+well sets with all four definedness patterns, one-sided NEGATIVE and ZERO values included -/
+example : Exact ratFns := ratFns_exact
+
+def uL : USet ℚ := ⟨.well, [("P1", some (-5)), ("P2", none), ("P3", some 2), ("P4", none), ("P5", some 0)]⟩
+def uR : USet ℚ := ⟨.well, [("P1", none), ("P2", some 0), ("P3", some (-3)), ("P4", none), ("P5", none)]⟩
+
+example : uL.vals.length = uR.vals.length := rfl
+example : binFn ratFns "UMAX" uL uR
+    = .ok ⟨.well, [("P1", some (-5)), ("P2", some 0), ("P3", some 2), ("P4", none), ("P5", some 0)]⟩ := by
+  rw [show "UMAX" = UOp.umax.name from rfl, union_semantics ratFns_exact .umax uL uR rfl]
+  simp [uL, uR, unionElem, UOp.fn]; norm_num
+example : binFn ratFns "UMIN" uL uR
+    = .ok ⟨.well, [("P1", some (-5)), ("P2", some 0), ("P3", some (-3)), ("P4", none), ("P5", some 0)]⟩ := by
+  rw [show "UMIN" = UOp.umin.name from rfl, union_semantics ratFns_exact .umin uL uR rfl]
+  simp [uL, uR, unionElem, UOp.fn]; norm_num
+example : binFn ratFns "UADD" uL uR
+    = .ok ⟨.well, [("P1", some (-5)), ("P2", some 0), ("P3", some (-1)), ("P4", none), ("P5", some 0)]⟩ := by
+  rw [show "UADD" = UOp.uadd.name from rfl, union_semantics ratFns_exact .uadd uL uR rfl]
+  simp [uL, uR, unionElem, UOp.fn]; norm_num
+example : binFn ratFns "UMUL" uL uR
+    = .ok ⟨.well, [("P1", some (-5)), ("P2", some 0), ("P3", some (-6)), ("P4", none), ("P5", some 0)]⟩ := by
+  rw [show "UMUL" = UOp.umul.name from rfl, union_semantics ratFns_exact .umul uL uR rfl]
+  simp [uL, uR, unionElem, UOp.fn]; norm_num
+/-- hypotheses of `union_one_sided` / `umax_upper_bound`: element 0 is defined (negative) on the left only -/
+example : uL.vals[0]? = some ("P1", some (-5 : ℚ)) ∧ uR.vals[0]? = some ("P1", none) := ⟨rfl, rfl⟩
+/-- all of `r` undefined -/
+example : ∀ p ∈ (⟨.well, [("P1", none), ("P2", none)]⟩ : USet ℚ).vals, p.2 = none := by simp
+/-- the seeded defect in numbers: with the positive constant `e = 1/2` standing in for an
+undefined operand, `max (-5) e = e ≠ -5` -/
+example : max (-5 : ℚ) (1/2) ≠ -5 := by norm_num
 
 end OpmVerif.Props.C17
